@@ -46,6 +46,12 @@ CHECKS.append({
     "note": "Trusted: Lean kernel + standard axioms; SimLoop (timers fire exactly at their deadline; a late real loop is not modelled); the establishment instant is t=0 with the first tick at K. Write failure of the ping itself belongs to C07/C09.",
     "technique": "Lean 4 proof (history invariant by induction over all event lists of a timed automaton) + model/implementation correspondence in virtual time",
 })
+CHECKS.append({
+    "property_id": "C12",
+    "text": "Lean 4 theorems over Esp.Dispatch (mirror of process_packet, add/remove message callback, the three internal handlers, send_messages, report_fatal_error): c12_unknown_inert / c12_undeclared_inert (for EVERY type number not declared in api.proto - 0, anything above the last id, any size - and every payload, the state is returned unchanged; tied to the generated registry through C13), c12_declared_known, c12_bad_payload (known type + undecodable payload: closed with protocol error, nothing delivered, first fatal cause kept), c12_exactly_once (for every handler table, every script of subscribe/unsubscribe operations the callbacks run - themselves included - and every set iteration order: the callbacks invoked are exactly the snapshot at dispatch start, once each), c12_sign_of_life, c12_order (every history: delivery log ordered by arrival, no handler twice per message), c12_reply_ping_time, c12_reply_disconnect (response first, then expected close, stop callback gets true), c12_reply_disconnect_write_fails. Tie: a session established through the real connect path; frames through the real plaintext helper (ids as varints up to 2^64-1; every undeclared id <= 65535 in thorough); subscribers running re-entrant scripts; model and implementation compared after every operation (closed, fatal class, stop calls, frames written, armed deadlines, callbacks invoked, handler table); the property's clauses are also judged directly on the implementation with api.proto's text as ground truth for ids.",
+    "note": "Trusted: Lean kernel + standard axioms; protobuf decoding as an oracle; set iteration order as an oracle reported by the harness. Found and fixed on the unchanged tree: type 0 selected the last class (9fdfaf1). Packets fed after a close belong to C08.",
+    "technique": "Lean 4 proof (case analysis of the dispatcher, induction over handler lists and operation histories, lifting through the C13 table theorems) + model/implementation correspondence",
+})
 
 _claimed = {c["property_id"] for c in CHECKS}
 NOT_APPLICABLE = [
